@@ -503,7 +503,7 @@ func NilTest(cond ssa.Value) (v ssa.Value, trueIsNil bool, ok bool) {
 	default:
 		return nil, false, false
 	}
-	return v, b.Op == token.EQL, true
+	return Unspill(v), b.Op == token.EQL, true
 }
 
 // NilState of a value at a program point.
@@ -519,6 +519,7 @@ const (
 // It follows the dominator chain of b; an If on `v ==/!= nil` whose taken edge dominates b
 // contributes a fact. Phi-equivalent values are not merged (sound: MaybeNil).
 func NilAt(v ssa.Value, b *ssa.BasicBlock) NilState {
+	v = Unspill(v)
 	for d := b; d != nil; d = d.Idom() {
 		id := d.Idom()
 		if id == nil {
@@ -1040,7 +1041,32 @@ func ReturnResults(ret *ssa.Return) []ssa.Value {
 			}
 		}
 	}
+	for i := range out {
+		out[i] = Unspill(out[i])
+	}
 	return out
+}
+
+// Unspill looks through loads of a local variable that go/ssa keeps in memory (a named result in a function with
+// defers, a variable captured by a closure that only reads it): when exactly one store reaches the load, the load is
+// that stored value.
+func Unspill(v ssa.Value) ssa.Value {
+	for d := 0; d < 4; d++ {
+		u, ok := v.(*ssa.UnOp)
+		if !ok || u.Op != token.MUL {
+			return v
+		}
+		al, ok := u.X.(*ssa.Alloc)
+		if !ok {
+			return v
+		}
+		vals, zero, ok := ReachingStores(al, u)
+		if !ok || zero || len(vals) != 1 {
+			return v
+		}
+		v = vals[0]
+	}
+	return v
 }
 
 // DynValues resolves the concrete values an interface-typed (or any) value may hold, following
